@@ -166,7 +166,13 @@ template <typename T> struct Runner {
         if (act == "Append" || act == "AppendBad") {
             size_t axis = (size_t) g["axis"].get<long>() - 1; long n = act == "Append" ? g["n"].get<long>() : 1;
             Idx off(R, 0), cnt(st.ext); off[axis] = st.ext[axis]; cnt[axis] = n;
-            if (act == "AppendBad") cnt[(axis + 1) % R] += 1;
+            if (act == "AppendBad") {
+                if (g["n"].get<long>() == 2) {      // permute the other dimensions: same number of elements, wrong shape
+                    std::vector<size_t> oth; for (size_t j = 0; j < R; j++) if (j != axis) oth.push_back(j);
+                    Idx sw(cnt); for (size_t q = 0; q < oth.size(); q++) sw[oth[q]] = cnt[oth[(q + 1) % oth.size()]];
+                    cnt = sw; cnt[axis] = 1;
+                } else cnt[(axis + 1) % R] += 1;
+            }
             std::vector<Idx> ix = rowMajor(off, cnt);
             Buf<T> buf; fill(buf, ix, k, variant);
             std::string o = outcome([&] { a.appendData(dt, buf.p(), nd(cnt), axis); }, &w);
